@@ -63,11 +63,25 @@ class HttpRelayClient(RelayPoolClient):
         result, envelope = self.poll()
         if result and envelope:
             self.idle = False
-            self._handle_request(result, envelope)
+            try:
+                self._handle_request(result, envelope)
+            except gevent.Timeout:
+                self._fail_request(result, 'HTTP request timed out')
+                raise
+            except Exception as exc:
+                self._fail_request(result, 'HTTP request failed: '+str(exc))
         else:
             if self.conn:
                 self.conn.close()
                 self.conn = None
+
+    def _fail_request(self, result, msg):
+        # The caller of attempt() is waiting on the result: never drop it.
+        if not result.ready():
+            result.set_exception(TransientRelayError(msg))
+        if self.conn:
+            self.conn.close()
+            self.conn = None
 
     def _b64encode(self, what):
         return b64encode(what.encode('utf-8')).decode('ascii')
